@@ -23,7 +23,7 @@ RULE = ("random cases: distributed_shampoo {x64 on, off} x layouts with 1 or 2 b
         "companions: 1-2 extra leaves of rank 1-3 with scale 1e-8..1e8 and larger statistics; Tearfree Shampoo: layouts with dims multiple of the "
         "block (1 or 2 blocked axes) x scales 10^U(-3,3).  evaluations = (block, step) comparisons; non-trivial = case with >= 2 blocks of scale "
         "ratio >= 1e3 or a companion; distinct by hash of the case")
-ASSUMPTIONS = ["equality tolerance 2e-5 relative to the block's own update (float32 paths differ in reduction order); bitwise-equal count reported",
+ASSUMPTIONS = ["distributed_shampoo cases use a relative ridge of 1e-4 or 1e-3 (statistics resolve the ridge in float32); equality tolerance 2e-5 relative to the block's own update (float32 paths differ in reduction order); bitwise-equal count reported",
                "with grafting on, blocks of one parameter share a single positive factor (the parameter-level norm ratio), which is fitted and divided out"]
 DECIDING = ["block_comparisons", "companion_comparisons", "alone_comparisons", "tf_block_comparisons", "cases_ds_blocks", "cases_ds_companion", "cases_tf"]
 MIN_NONTRIVIAL = 30
@@ -52,7 +52,9 @@ def gen_case(rng, kind):
   if kind == "ds":
     (shape, block) = LAYOUTS[int(rng.integers(0, len(LAYOUTS)))]
     return {"kind": "ds", "shape": list(shape), "block": block, "graft": int(rng.choice([0, 0, 1, 3])), "eigh": bool(rng.integers(0, 2)),
-            "beta2": float(rng.choice([1.0, 0.9, 0.999])), "eps": float(rng.choice([1e-6, 1e-3])), "rel": bool(rng.integers(0, 2)),
+            # relative ridge well above the float32 noise of the statistics (n*2^-24*lambda_max): with an absolute or a
+            # tiny ridge the root of a rank-deficient block is decided by rounding noise in ANY arrangement (DESIGN 2.4 rule 4)
+            "beta2": float(rng.choice([1.0, 0.9, 0.999])), "eps": float(rng.choice([1e-4, 1e-3])), "rel": True,
             "companion": bool(rng.integers(0, 2)), "T": 5, "hseed": int(rng.integers(0, 2 ** 31))}
   (shape, block) = TF_LAYOUTS[int(rng.integers(0, len(TF_LAYOUTS)))]
   return {"kind": "tf", "shape": list(shape), "block": block, "decay": float(rng.choice([1.0, 0.9])),
